@@ -826,6 +826,10 @@ func (cv *Conv) Exec(e *Edge) (divs []evid.Div, fatal error) {
 			if d.AuthLeft == 0 && d.Bdat == "none" {
 				chk("lineLimit", s.LineLimit, MaxLine)
 			}
+			if !d.Closed {
+				// the LMTP status collector lives exactly as long as the chunked transfer
+				chk("collector", s.Collector, e.Cfg.Lmtp && d.Bdat != "none")
+			}
 			if len(diffs) > 0 {
 				j := strings.Join(diffs, " ")
 				// every field belongs to a property; a step may break several
@@ -840,6 +844,8 @@ func (cv *Conv) Exec(e *Edge) (divs []evid.Div, fatal error) {
 						props["C19"] = true
 					case "bytes":
 						props["C06"] = true // the size accounting of the chunked transfer
+					case "collector":
+						props["C13"] = true
 					default: // greeting, session, envelope, transfer
 						props["C03"] = true
 					}
@@ -847,7 +853,7 @@ func (cv *Conv) Exec(e *Edge) (divs []evid.Div, fatal error) {
 				if e.Lbl.Cmd.C == "STARTTLS" {
 					props["C10"] = true // nothing learned in plaintext survives the upgrade
 				}
-				for _, prop := range []string{"C03", "C06", "C09", "C10", "C19"} {
+				for _, prop := range []string{"C03", "C06", "C09", "C10", "C13", "C19"} {
 					if props[prop] {
 						divs = append(divs, evid.Div{Prop: prop, Key: fmt.Sprintf("state:%s:%s", e.Lbl.Cmd.String(), srcClass(e)),
 							Msg: fmt.Sprintf("%s: connection state after the step differs: %s", ctx, j), Replay: rp()})
